@@ -24,12 +24,14 @@ func init() {
 			"reference evaluator ref.Eval (three-valued, no short-circuit) fixes the truth of every statement; only policies whose every selector resolves on the arguments are generated",
 			"principals, commands and time bounds are kept conforming so that a verdict is attributable to the policy rule",
 		},
-		Shards:      shards(8, 16),
-		Run:         runC03,
-		MinEvals:    floor(3200, 110000),
-		MinDistinct: floor(1500, 40000),
+		Shards:          shards(8, 16),
+		RaceShards:      shards(1, 2),
+		RaceIsViolation: true,
+		Run:             runC03,
+		MinEvals:        floor(3200, 110000),
+		MinDistinct:     floor(1500, 40000),
 		RequiredCells: func(string) []string {
-			cells := []string{"deep-nesting", "twins", "twins/true-then-false", "twins/false-then-true", "twins/same-policy", "twins/different-links", "scale", "scale/long-chain", "scale/many-statements", "scale/history", "heterogeneous", "heterogeneous/some-statement-false", "hook/returns-satisfying", "hook/returns-violating", "hook/returns-empty", "hook/returns-subset", "hook/error", "hook/sees-token-args", "mono/add-statement", "mono/add-link", "pattern/only-root", "pattern/only-leaf", "all-true"}
+			cells := []string{"purity/chain-verdicts/history", "purity/chain-verdicts/concurrent", "purity/chain-verdicts/concurrent-focused", "chain-purity/ExecutionAllowed/same-proofs-arguments/model=deny", "chain-purity/ExecutionAllowed/shared-lower-links/model=deny", "deep-nesting", "twins", "twins/true-then-false", "twins/false-then-true", "twins/same-policy", "twins/different-links", "scale", "scale/long-chain", "scale/many-statements", "scale/history", "heterogeneous", "heterogeneous/some-statement-false", "hook/returns-satisfying", "hook/returns-violating", "hook/returns-empty", "hook/returns-subset", "hook/error", "hook/sees-token-args", "mono/add-statement", "mono/add-link", "pattern/only-root", "pattern/only-leaf", "all-true"}
 			for _, lp := range []string{"first", "middle", "last"} {
 				for _, sp := range []string{"first", "middle", "last", "only"} {
 					cells = append(cells, "false/link="+lp+"/stmt="+sp)
@@ -74,6 +76,15 @@ func mutateArgs(r *rand.Rand, a ref.V) ref.V {
 				*cur = ref.List(ref.Int(1))
 				return out
 			}
+			if r.IntN(4) == 0 {
+				// another length: what a negative index or an open slice selects moves
+				if r.IntN(2) == 0 || len(cur.L) == 1 {
+					cur.L = append(cur.L, cloneV(cur.L[r.IntN(len(cur.L))]))
+				} else {
+					cur.L = cur.L[:len(cur.L)-1]
+				}
+				return out
+			}
 			cur = &cur.L[r.IntN(len(cur.L))]
 			continue
 		}
@@ -90,7 +101,11 @@ func mutateArgs(r *rand.Rand, a ref.V) ref.V {
 	case ref.KFloat:
 		cur.F = cur.F*2 + 1.5
 	case ref.KString:
-		cur.S += "zz"
+		if rs := []rune(cur.S); len(rs) > 1 && r.IntN(3) == 0 {
+			cur.S = string(rs[:len(rs)-1])
+		} else {
+			cur.S += "zz"
+		}
 	case ref.KBool:
 		cur.B = !cur.B
 	case ref.KBytes:
@@ -130,6 +145,9 @@ func kindsPerLink(s *chain.Scenario) string {
 }
 
 func runC03(w *mon.W) {
+	if purityGate(w, c03Purity) {
+		return
+	}
 	c03Heterogeneous(w)
 	c03Scale(w)
 	c03Twins(w)
